@@ -9,10 +9,19 @@ EXTENDS Nt
 CanonList(kk) == SelectSeq([i \in 1..Pow4(kk) |-> Digits(i - 1, kk)], IsCanon)
 
 Abs(a, b) == IF a >= b THEN a - b ELSE b - a
-\* a normalised value printed with 6 decimals, read as the integer v6 = value * 10^6, is the
-\* fraction cnt / tot correct to 6 decimals (and 0 when there is no window at all)
-NormOk(v6, cnt, tot) == IF tot = 0 THEN v6 = 0
-                        ELSE Abs(v6 * tot, cnt * 1000000) <= tot \div 2
+\* A normalised value printed with 6 decimals, read as the integer v6 = value * 10^6, is the fraction cnt / tot correct to
+\* 6 decimals (and 0 when there is no window at all):  |v6 * tot - cnt * 10^6| * 2 <= tot.
+\* TLC integers are 32-bit, so the products are never formed: the six decimals of cnt / tot come from a long division
+\* (remainders stay below 10 * tot), and v6 must be that quotient, or the next integer, whichever the remainder allows.
+LongDiv6(cnt, tot) ==
+  LET st[i \in 0..6] == IF i = 0 THEN <<cnt \div tot, cnt % tot>>
+                        ELSE LET p == st[i-1] IN <<p[1] * 10 + (p[2] * 10) \div tot, (p[2] * 10) % tot>>
+  IN st[6]                                    \* <<floor(cnt * 10^6 / tot), remainder>>
+NormOk(v6, cnt, tot) ==
+  IF tot = 0 THEN v6 = 0
+  ELSE LET q == LongDiv6(cnt, tot) IN
+       \/ v6 = q[1] /\ 2 * q[2] <= tot              \* rounded down: remainder at most half
+       \/ v6 = q[1] + 1 /\ 2 * (tot - q[2]) <= tot  \* rounded up: missing part at most half
 
 \* chaos game corners in units of the square size: A=(0,0) C=(0,1) G=(1,1) T/U=(1,0)
 CornerX(c) == IF c \in {2, 3} THEN 1 ELSE 0
